@@ -509,6 +509,22 @@ def handleAsrR (f : List String) : Verdict :=
     | _, _, _, _, _ => bad "C12.asrr fields"
   | _ => bad "C12.asrr arity"
 
+/-- the flag default of `--algo`.  fields: command, dumps, list1, list2 | outcome, stdout without --algo, with --algo
+    acctran, deltran, downpass (escaped; "exit" = the command failed).  The oracle is about the code's own outputs only:
+    leaving --algo out must give what `--algo acctran` (the documented default, `cliDefaultAlgo`) gives. -/
+def handleCliDef (f : List String) : Verdict :=
+  match f with
+  | [cmd, _dumps, _l1, _l2, outcome, o0, oA, oD, oP] =>
+    let tags := ["cli", "cli-default", "cmd-" ++ cmd] ++ tagIf (oA != oD || oA != oP) "algos-differ" ++
+      tagIf (oA != oD && oA != oP && oD != oP) "nontrivial" ++ tagIf (oA == "exit") "outcome-fail"
+    if outcome.startsWith "panic" then ⟨.oracle, tags, "panic: " ++ outcome⟩ else
+    if outcome != "ok" then bad "C12.clidef outcome" else
+    if o0 != oA then
+      ⟨.oracle, tags, "without --algo the command does not do what --algo " ++ cliDefaultAlgo ++ " does" ++
+        (if o0 == oD then " (it does what --algo deltran does)" else if o0 == oP then " (it does what --algo downpass does)" else "")⟩
+    else ⟨.pass, tags, ""⟩
+  | _ => bad "C12.clidef arity"
+
 def handle (op : String) (f : List String) : Verdict :=
   match op with
   | "acr" => handleAcr0 f
@@ -517,6 +533,7 @@ def handle (op : String) (f : List String) : Verdict :=
   | "asrpcli" => withTag "cli" (handleAsr0 true f)
   | "acrcli" => withTag "cli" (handleAcr0 f)
   | "acrfull" => handleAcrFull f
+  | "clidef" => handleCliDef f
   | "asrfull" => handleAsrFull f
   | "acrr" => handleAcrR f
   | "acrrcli" => withTag "cli" (handleAcrR f)
